@@ -1161,6 +1161,7 @@ class Interp:
         if isinstance(v, SCoroutine):
             return v.run()
         if type(v).__name__ == "SSleep":
+            self.ex.ghosts.setdefault("sleeps", []).append(v.delay)  # ghost: the delays slept, in order
             h = self.hooks.get("sleep")
             if h is not None:
                 h(self, v)
